@@ -125,7 +125,7 @@ fn extra_inputs() -> Vec<Input> {
 
 fn inputs(tier: &str) -> Vec<Input> {
     // the polynomial oracles are cubic: graphs up to 130 nodes
-    let mut v: Vec<Input> = large_inputs(tier).into_iter().filter(|i| i.g.number_of_nodes() <= 130 && !i.name.starts_with("neg-")).collect();
+    let mut v: Vec<Input> = large_inputs(tier).into_iter().filter(|i| i.g.number_of_nodes() <= 130 && !i.name.starts_with("neg-") && !i.name.starts_with("zero-")).collect();
     v.extend(extra_inputs());
     v
 }
@@ -320,6 +320,88 @@ pub fn c06_large(tier: &str, rec: &Recorder, c: &mut Counters) {
                     }
                 }
             }
+        }
+    }
+}
+
+/// C09 on graphs above the parallel threshold (real rayon, the default pool): counts, degree maps and handshake sums
+/// recomputed from get_all_edges(); inputs include hubs whose edges are spread over many work chunks
+pub fn c09_large(tier: &str, rec: &Recorder, c: &mut Counters) {
+    let mut ins = inputs(tier);
+    for (n, directed) in [(61i32, true), (61, false), (200, true)] {
+        // in-star, out-star and a double hub
+        let mut g: Graph<i32, ()> = Graph::new(if directed { GraphSpecs::directed() } else { GraphSpecs::undirected() });
+        for i in (0..n).rev() {
+            g.add_node(Node::from_name(i));
+        }
+        for i in 2..n {
+            let _ = g.add_edge(Arc::new(Edge { u: i, v: 0, weight: 1.0 + (i % 3) as f64, attributes: None }));
+            if i % 2 == 0 {
+                let _ = g.add_edge(Arc::new(Edge { u: 1, v: i, weight: 2.0, attributes: None }));
+            }
+        }
+        ins.push(Input { name: format!("hubs{n}/{}", if directed { "directed" } else { "undirected" }), g, weighted: true });
+    }
+    for inp in ins {
+        let g = &inp.g;
+        let n = g.number_of_nodes();
+        let directed = g.specs.directed;
+        c.inc("large_graph_calls");
+        let mk = |clause: &str, call: &str, detail: String| Violation::new(clause, call, format!("L:{}|{call}", inp.name), format!("large graph {} (n={n})\n{detail}", inp.name)).with_tags(vec!["large_graph_parallel_path".into()]);
+        let (mut din, mut dout) = (vec![0usize; n], vec![0usize; n]);
+        let (mut win, mut wout) = (vec![0.0f64; n], vec![0.0f64; n]);
+        let edges = g.get_all_edges();
+        for e in &edges {
+            dout[e.u as usize] += 1;
+            din[e.v as usize] += 1;
+            wout[e.u as usize] += e.weight;
+            win[e.v as usize] += e.weight;
+        }
+        if g.number_of_edges() != edges.len() {
+            rec.record(mk("number_of_edges", "Graph::number_of_edges", format!("{} vs {} stored edges", g.number_of_edges(), edges.len())));
+        }
+        let r = guarded(|| (g.get_degree_for_all_nodes(), g.get_in_degree_for_all_nodes(), g.get_out_degree_for_all_nodes(), g.get_weighted_degree_for_all_nodes(), g.get_weighted_in_degree_for_all_nodes(), g.get_weighted_out_degree_for_all_nodes()));
+        let (deg, indeg, outdeg, wdeg, windeg, woutdeg) = match r {
+            Ok(x) => x,
+            Err(pi) => {
+                rec.record(mk("no_panic", "Graph::get_*_degree_for_all_nodes", pi.msg.clone()).with_panic(pi));
+                continue;
+            }
+        };
+        for v in 0..n {
+            let name = v as i32;
+            let total = din[v] + dout[v];
+            if deg.get(&name) != Some(&total) {
+                rec.record(mk("degree_map", "Graph::get_degree_for_all_nodes", format!("degree[{v}] = {:?}, edges give {total}", deg.get(&name))));
+            }
+            if g.get_node_degree(name) != Some(total) {
+                rec.record(mk("degree", "Graph::get_node_degree", format!("degree({v}) = {:?}, edges give {total}", g.get_node_degree(name))));
+            }
+            if !inp.weighted {
+                continue; // unweighted edges carry NaN: the weighted maps are not defined by the statement
+            }
+            let wt = win[v] + wout[v];
+            if !wdeg.get(&name).map_or(false, |x| close(*x, wt)) {
+                rec.record(mk("weighted_degree_map", "Graph::get_weighted_degree_for_all_nodes", format!("weighted degree[{v}] = {:?}, edges give {wt}", wdeg.get(&name))));
+            }
+            if directed {
+                if indeg.as_ref().ok().and_then(|m| m.get(&name)) != Some(&din[v]) {
+                    rec.record(mk("in_degree_map", "Graph::get_in_degree_for_all_nodes", format!("in-degree[{v}] = {:?}, edges give {}", indeg.as_ref().ok().and_then(|m| m.get(&name)), din[v])));
+                }
+                if outdeg.as_ref().ok().and_then(|m| m.get(&name)) != Some(&dout[v]) {
+                    rec.record(mk("out_degree_map", "Graph::get_out_degree_for_all_nodes", format!("out-degree[{v}] = {:?}, edges give {}", outdeg.as_ref().ok().and_then(|m| m.get(&name)), dout[v])));
+                }
+                if !windeg.as_ref().ok().and_then(|m| m.get(&name)).map_or(false, |x| close(*x, win[v])) {
+                    rec.record(mk("weighted_in_degree_map", "Graph::get_weighted_in_degree_for_all_nodes", format!("weighted in-degree[{v}] = {:?}, edges give {}", windeg.as_ref().ok().and_then(|m| m.get(&name)), win[v])));
+                }
+                if !woutdeg.as_ref().ok().and_then(|m| m.get(&name)).map_or(false, |x| close(*x, wout[v])) {
+                    rec.record(mk("weighted_out_degree_map", "Graph::get_weighted_out_degree_for_all_nodes", format!("weighted out-degree[{v}] = {:?}, edges give {}", woutdeg.as_ref().ok().and_then(|m| m.get(&name)), wout[v])));
+                }
+            }
+        }
+        let hs: usize = deg.values().sum();
+        if hs != 2 * edges.len() {
+            rec.record(mk("handshake", "Graph::get_degree_for_all_nodes", format!("degrees sum to {hs}, twice the number of edges is {}", 2 * edges.len())));
         }
     }
 }
